@@ -22,7 +22,7 @@ RULE_TEXT = ('runs = deterministic sweep over defect classes (15) x every varian
              'process spawns in all five phases and a sandbox; distinct = (defect class, variant, phase, position '
              'class, mode/command).')
 REACH_PROBES = ['class_syntax', 'class_unknown_instruction', 'class_undefined_symbol', 'class_defined_later',
-                'class_wrong_type', 'class_illegal_relativity', 'class_missing_home_file', 'class_missing_file_absolute_path', 'class_bad_integer',
+                'class_wrong_type', 'class_wrong_type_non_ascii_name', 'class_illegal_relativity', 'class_missing_home_file', 'class_missing_file_absolute_path', 'class_bad_integer',
                 'class_bad_integer_expression', 'class_bad_regex', 'class_act_syntax', 'class_act_defect', 'defect_phase_partly_in_included_file', 'sections_redeclared_or_reordered',
                 'act_defect_command_line_actor', 'act_defect_file_actor', 'act_defect_source_actor', 'class_stub_validation',
                 'class_stub_symbols', 'class_suite_shared_instruction', 'class_none_symbol_cmd', 'last_line_of_cleanup', 'mode_normal', 'mode_keep',
@@ -41,9 +41,13 @@ DEFECTS = {
     'unknown_instruction': [('no-such-instruction x', ALLP), ('exit-code == 0', ('setup', 'cleanup')),
                             ('stdin = "x"', ('assert', 'cleanup'))],
     'undefined_symbol': [('file u.txt = @[UNDEF]@', ALLP), ('def string X = @[UNDEF]@', ALLP),
+                         # legal names outside ASCII (a symbol name is any alphanumeric characters and _)
+                         ('$ echo @[nicht_definiert_\u00e4]@', ALLP), ('file u.txt = "x @[\u00e5\u00e4\u00f6]@ y"', ALLP),
+                         ('file u.txt = <<EOF\nline @[UNDEF_\u03b1\u03b2]@\nEOF', ALLP),
                          ('run @ UNDEF_PROG', ALLP), ('% p @[LISTSYM]@ "@[UNDEF]@"', ALLP),
                          ('stdout equals @[UNDEF]@', ('assert',))],
     'defined_later': [('file u.txt = @[LATER]@', ALLP), ('% p @[LATER]@', ALLP)],
+    'wrong_type_non_ascii_name': [('file u.txt = "@[LM_\u00e4]@"', ALLP), ('$ echo @[LM_\u00e4]@', ALLP)],
     'wrong_type': [('run @ STRSYM', ALLP), ('cd -rel STRSYM x', ALLP), ('cd -rel LISTSYM x', ALLP),
                    ('copy @[LISTSYM]@', ALLP)],
     'illegal_relativity': [('file @[HOMEP]@/w.txt = "w"', ALLP), ('file @[HOMEP2]@/w.txt = "w"', ALLP),
@@ -55,6 +59,10 @@ DEFECTS = {
                           ('run @ ECHOP -existing-file -rel-home nofile.txt', ALLP),
                           ('run @ ECHOP x -existing-file nofile.txt y', ALLP),
                           ('file o.txt = -stdout-from @ ECHOP -existing-dir -rel-home no-such-dir', ALLP),
+                          # a name that exists only as a symbolic link whose target does not: the file is as missing
+                          ('copy dangling.txt', ALLP), ('% p -existing-path -rel-home dangling.txt', ALLP),
+                          ('% p -existing-file dangling.txt', ALLP), ('run dangling.txt', ALLP),
+                          ('file f.txt = -contents-of -rel-home dangling.txt', ALLP),
                           ('copy -rel-act-home nofile.txt', ALLP), ('% p -existing-file -rel-act-home nofile.txt', ALLP),
                           ('run -rel-act-home nofile-exe', ALLP)],
     # a missing file named by an absolute path (literally, or through a path symbol with an absolute value): it does not
@@ -105,6 +113,8 @@ SUITE_SHARED = [
 BASE_DEFS = ['def string STRSYM = s', 'def list LISTSYM = a b', 'def path HOMEP = -rel-home hp',
              'def path HOMEP2 = @[HOMEP]@/sub', 'def path ABSP = /no/such/dir', 'def program ECHOP = % echo-prog pa',
              'def line-matcher LMSYM = line-num == 1',
+             'def line-matcher LM_\u00e4 = line-num == 1',
+             "file legal-ref-00.txt = 'a' -transformed-by filter LM_\u00e4",
              "file legal-ref-0.txt = 'a' -transformed-by filter LMSYM",
              'run @ ECHOP legal-ref-arg',
              'file legal-ref-1.txt = "@[STRSYM]@ @[LISTSYM]@"',
@@ -315,7 +325,8 @@ def build(seed, tier, case, spec, g, sweep):
     return {'format': 1, 'property': PROPERTY, 'engine': 'c03', 'run_seed': seed, 'tier': tier,
             'knobs': {'mem_buff_size': g.choice([1, 8192])}, 'entry': 'cli', 'spec': spec, 'case': case,
             'control': control, 'procs': procs, 'faults': faults, 'sweep': sweep,
-            'files': {'home/hp/sub/keep.txt': 'k', 'home/existing.txt': 'e'}}
+            'files': {'home/hp/sub/keep.txt': 'k', 'home/existing.txt': 'e',
+                      'home/dangling.txt': {'symlink': 'no-such-target.txt'}}}
 
 
 # ----------------------------------------------------------------------------- execute
